@@ -40,6 +40,10 @@ pub fn generate(seed: u64, tier: &str, sink: &mut Sink) {
     let mut rng = Rng::new(seed ^ 0xC15);
     let thorough = tier == "thorough";
     let n = if thorough { 12_000 } else { 900 };
+    // the boundary announced by the previous form: a peer (or a user) who has seen one request of this client
+    // may put that delimiter into the data of the next upload
+    let mut prev_boundary: Vec<u8> = vec![];
+    let mut replayed = 0usize;
     for i in 0..n {
         let nt = if i == 0 { 0 } else { rng.below(4) as usize };
         let nf = if i == 0 { 0 } else if i == 1 { 1 } else { rng.below(4) as usize };
@@ -62,7 +66,17 @@ pub fn generate(seed: u64, tier: &str, sink: &mut Sink) {
                     _ => rng.range(1, 400) as usize,
                 };
                 let bl = rng.chance(1, 3);
-                let data = gen_data(&mut rng, bl, len);
+                let mut data = gen_data(&mut rng, bl, len);
+                if !prev_boundary.is_empty() && rng.chance(1, 3) {
+                    let mut inj = b"tail\r\n--".to_vec();
+                    inj.extend_from_slice(&prev_boundary);
+                    inj.extend_from_slice(b"\r\nContent-Disposition: form-data; name=\"smuggled\"\r\n\r\nx\r\n--");
+                    inj.extend_from_slice(&prev_boundary);
+                    inj.extend_from_slice(b"--\r\n");
+                    let at = rng.below(data.len() as u64 + 1) as usize;
+                    data.splice(at..at, inj);
+                    replayed += 1;
+                }
                 let filename = if rng.chance(1, 2) { Some(gen_name(&mut rng)) } else { None };
                 let mime = if rng.chance(1, 2) { Some(rng.pick(&["text/plain", "image/png", "application/x-custom+json", "text/plain; charset=utf-8", "application/octet-stream"]).to_string()) } else { None };
                 (gen_name(&mut rng), data, filename, mime)
@@ -144,6 +158,9 @@ pub fn generate(seed: u64, tier: &str, sink: &mut Sink) {
             }
             Ok(())
         })();
+        if !boundary.is_empty() {
+            prev_boundary = boundary.clone();
+        }
         let op = format!(
             "mpart 8192 {} {} {}",
             hex_or_dash(&boundary),
@@ -156,7 +173,7 @@ pub fn generate(seed: u64, tier: &str, sink: &mut Sink) {
             format!("ct={} pieces={}", hex(&ct_line), if pieces.is_empty() { "-".to_string() } else { pieces.iter().map(|p| hex(p)).collect::<Vec<_>>().join(",") })
         };
         sink.push(Case {
-            tags: vec![format!("texts={}", nt), format!("files={}", nf), format!("big={}", files.iter().any(|f| f.1.len() > 8192)), if nt + nf == 0 { "kind=empty-form".into() } else { "kind=form".into() }],
+            tags: vec![format!("texts={}", nt), format!("files={}", nf), format!("big={}", files.iter().any(|f| f.1.len() > 8192)), if nt + nf == 0 { "kind=empty-form".into() } else { "kind=form".into() }, format!("previous-boundary-in-data={}", replayed > 0 && { let r = replayed; replayed = 0; r > 0 })],
             op,
             impl_line,
             oracle: o,
